@@ -7,20 +7,19 @@ import WpModel.Props.C18
 namespace Wp.Witness.C18
 open Wp Wp.Anchors Wp.Outline Wp.C18
 
-/-- `<h1 id=a style="transform: translate(10px, 20px)">` on a 200×20 box at the origin.
-`gather_anchors` overwrites `pos_x, pos_y` with the transformed point for the bookmark and then
-transforms them again for the anchor: the named destination is at (20, 40) although the box is
-painted (and its bookmark points) at (10, 20).  The same element without a bookmark (`<div id=a>`)
-gets (10, 20): `anchor_position_partial`. -/
-theorem anchor_double_transform :
+/-- Regression example for the repaired defect `anchor-double-transform` (commit a37277b):
+`<h1 id=a style="transform: translate(10px, 20px)">` on a 200×20 box at the origin.  The named
+destination and the bookmark are both at (10, 20) — the matrix is applied once — exactly as for the
+same element without a bookmark (`<div id=a>`). -/
+example :
     let m : Matrix := { e := 10, f := 20 }
     (visit .other 0 0 200 20 "one" (some 1) "open" none false (some "a") (some m) {}).anchors =
-      [⟨"a", ⟨20, 40, 220, 60⟩⟩] ∧
+      [⟨"a", ⟨10, 20, 210, 40⟩⟩] ∧
     (visit .other 0 0 200 20 "one" (some 1) "open" none false (some "a") (some m) {}).bookmarks =
       [⟨1, "one", 10, 20, "open"⟩] ∧
     (visit .other 0 0 200 20 "" none "open" none false (some "a") (some m) {}).anchors =
       [⟨"a", ⟨10, 20, 210, 40⟩⟩] := by
-  simp only [visit, hasBookmark, posAfterBookmark, anchorStep, bookmarkStep, linkStep, hasLink, hasAnchor,
+  simp only [visit, hasBookmark, bookmarkPos, anchorStep, bookmarkStep, linkStep, hasLink, hasAnchor,
     Matrix.transformPoint]
   refine ⟨?_, ?_, ?_⟩ <;> decide +kernel
 
